@@ -156,6 +156,9 @@ Proof. induction fuel; intros; cbn [canon_set]; nb_auto. Qed.
 Lemma collect_pruned_nb fx pa cnt : forall i hi canon acc, onb (collect_pruned fx pa cnt i hi canon acc).
 Proof. induction cnt; intros; cbn [collect_pruned]; nb_auto. Qed.
 #[export] Hint Resolve canon_set_nb collect_pruned_nb : nb.
+Lemma reparent_general_nb : forall cnt i, nb (reparent_general cnt i).
+Proof. induction cnt; intros i; cbn [reparent_general]; nb_auto. Qed.
+#[export] Hint Resolve reparent_general_nb : nb.
 Lemma OnPrune_core_nb fx sink r s : nb (OnPrune_core fx sink r s).
 Proof. unfold OnPrune_core. nb_auto. Qed.
 #[export] Hint Resolve OnPrune_core_nb CanonicalChain_nb CanonAtSlot_nb Search_nb : nb.
